@@ -49,3 +49,21 @@ def hasPrefix (s p : Bytes) : Bool := p.isPrefixOf s
 def hasSuffix (s p : Bytes) : Bool := p.reverse.isPrefixOf s.reverse
 
 end Wl2k.Str
+
+namespace Wl2k.Str
+
+/-- `strings.LastIndex(s, string(c))` for a single byte: position or none -/
+def lastIndexByte (s : Bytes) (c : UInt8) : Option Nat :=
+  match s.reverse.findIdx? (· = c) with
+  | some i => some (s.length - 1 - i)
+  | none => none
+
+/-- `strings.Contains(s, sub)` -/
+def containsSub : Bytes → Bytes → Bool
+  | [], sub => sub.isEmpty
+  | s@(_ :: t), sub => sub.isPrefixOf s || containsSub t sub
+
+/-- ASCII `strings.EqualFold` -/
+def equalFoldAscii (a b : Bytes) : Bool := toLower a == toLower b
+
+end Wl2k.Str
